@@ -44,7 +44,10 @@ Blocks == { <<I1>>, <<I2>>, <<I3>>, <<I4>>, <<I5>>, <<I6, C6>>, <<I7>>, <<I8>>, 
             <<BlankLine, SectionLine(".plt.got"), BlankLine>> }
 RECURSIVE Flat(_)
 Flat(ss) == IF ss = <<>> THEN <<>> ELSE Head(ss) \o Flat(Tail(ss))
-Listings == { Flat(s) : s \in SeqsBetween(Blocks, 0, MaxBlocks) }
+\* the same direct call (mnemonic and target) at three different addresses, and a jump to that target
+I4at(a) == [I4 EXCEPT !.addr = a]
+SameTarget == { <<I4at("401005"), I1, I4at("40100b"), I4at("401010"), [I4at("401015") EXCEPT !.mn = "jmp", !.bytes = <<"e9", "06", "00", "00", "00">>], I3>> }
+Listings == { Flat(s) : s \in SeqsBetween(Blocks, 0, MaxBlocks) } \cup SameTarget
 
 \* ---- operand forms of C09 --------------------------------------------------
 Regs64 == {"%rax", "%rbx", "%rcx", "%rdx", "%rsi", "%rdi", "%rbp", "%rsp", "%r8", "%r9", "%r10", "%r11", "%r12", "%r13", "%r14", "%r15"}
